@@ -1,7 +1,7 @@
 (* C01: LapTimer files survive encode -> decode -> encode unchanged. *)
 From Coq Require Import String Ascii List ZArith NArith Bool Lia.
 From TT Require Import Base.Civil.
-From TT Require Import Base.Outcome Base.Str Base.F64 Xml.Print Xml.Lex Laptimer.Leaves Laptimer.Value Laptimer.Codec Proofs.Xml_proofs Proofs.Leaf_proofs.
+From TT Require Import Base.Outcome Base.Str Base.F64 Xml.Print Xml.Lex Laptimer.Leaves Laptimer.Value Laptimer.Codec Proofs.Xml_proofs Proofs.Leaf_proofs Proofs.Doc_proofs Proofs.Doc_lt.
 Import ListNotations.
 Local Open Scope Z_scope.
 
@@ -79,3 +79,12 @@ Proof.
     pose proof (Z.mul_div_le d 10000000 ltac:(lia)). lia.
 Qed.
 Print Assumptions C01_duration_idempotent.
+
+(* ---- the document level of decode-after-encode ---- *)
+(* Decoding starts by parsing the file: for every value the bytes written parse back to exactly
+   the element tree that was printed (names, attributes, nesting, order, every text), so nothing
+   is lost or reordered between encoder and decoder at the XML level; what remains of the round
+   trip is leaf by leaf (the theorems above and the correspondence). *)
+Theorem C01_document_roundtrip : forall v, wf_val v -> lex (enc_text v) = Ok (cleaned (root_tree v)).
+Proof. exact enc_parses. Qed.
+Print Assumptions C01_document_roundtrip.
